@@ -80,6 +80,7 @@ impl<M> Default for DProbe<M> {
         DProbe(std::marker::PhantomData)
     }
 }
+#[cfg_attr(feature = "asynctrait", ractor::async_trait)]
 impl<M: Numbered> Actor for DProbe<M> {
     type Msg = M;
     type State = ();
